@@ -224,8 +224,21 @@ impl StreamFlowController {
             return;
         }
 
+        let previous_max_stream_data = self.max_stream_data;
         self.max_stream_data = max_stream_data;
-        if self.state == StreamFlowControllerState::BlockedOnStreamWindow {
+
+        let was_blocked_on_stream_window = match self.state {
+            StreamFlowControllerState::BlockedOnStreamWindow => true,
+            // The blocked state records the last limit that was hit. If the connection window
+            // acquired so far already exceeded the previous stream limit, the stream limit was
+            // the binding one and the new credit allows sending again.
+            StreamFlowControllerState::BlockedOnConnectionWindow => {
+                previous_max_stream_data < self.acquired_connection_flow_controller_window
+            }
+            _ => false,
+        };
+
+        if was_blocked_on_stream_window {
             self.state = StreamFlowControllerState::Ready;
             // We now have more capacity from the peer so stop sending STREAM_DATA_BLOCKED frames
             self.stream_data_blocked_sync.stop_sync();
